@@ -7,6 +7,7 @@ import (
 	"go/constant"
 	"go/types"
 	"math/big"
+	"sort"
 	"strings"
 )
 
@@ -855,7 +856,15 @@ func (env *SpecEnv) evalCall(e *Expr) TV {
 			}
 			site := args[0].Name
 			if !strings.Contains(site, "#") {
-				site += "#1"
+				// any call site of that callee
+				var any []string
+				for k, v := range env.st.heap {
+					if strings.HasPrefix(k, "called|"+site+"#") {
+						any = append(any, v)
+					}
+				}
+				sort.Strings(any)
+				return boolTV(or(any...))
 			}
 			if v, ok := env.st.heap["called|"+site]; ok {
 				return boolTV(v)
